@@ -240,10 +240,10 @@ def _worker(task):
 
 def analyse_printer(repo: str, use_cache: bool = True, tier: str = "quick") -> List[dict]:
     import json
-    from .report import VERIF
+    from .report import CACHE, VERIF
     prog, S = _setup(repo)
     digest = source_digest(prog, extra="print" + tier + _self_digest())
-    cache = VERIF / ".cache" / f"printcases-{digest}.json"
+    cache = CACHE / f"printcases-{digest}.json"
     if use_cache and cache.exists():
         try:
             return json.loads(cache.read_text())
@@ -309,10 +309,10 @@ def analyse_parser_shapes(repo: str, n_tokens: int = 5, use_cache: bool = True) 
     literals): the domain follows the parser's source, not a list of forms."""
     import json
     from .parsecases import analyse_parser
-    from .report import VERIF
+    from .report import CACHE, VERIF
     prog, S = _setup(repo)
     digest = source_digest(prog, extra=f"print-parser-shapes{n_tokens}" + _self_digest())
-    cache = VERIF / ".cache" / f"printshapes-{digest}.json"
+    cache = CACHE / f"printshapes-{digest}.json"
     if use_cache and cache.exists():
         try:
             return json.loads(cache.read_text())
